@@ -64,7 +64,15 @@ Ignorable(g, r) == ~Counted(g, r) \/ \E i \in DOMAIN Entries(g, r) : Entries(g, 
 IgnCalled(g, r) == \E i \in DOMAIN Entries(g, r) : Entries(g, r)[i].k = IGN     \* a called allele of another shape
 Span(r) == (r.pos - 1)..(r.pos + Len(r.ref))
 IgnSites(g, f) == UNION {Span(f[i]) : i \in {j \in DOMAIN f : Ignorable(g, f[j])}}
-MismatchSites(g, f) == {f[i].pos : i \in {j \in DOMAIN f : Counted(g, f[j]) /\ RefMismatch(g, f[j])}}
+(* RefMismatchReexpressed is asserted where the property states it: a counted record with a one-base *)
+(* REF that differs from the RefSeq-derived reference AND a called allele that has to be spelled   *)
+(* against it: the REF allele itself (GT index 0), or a one-base substitution ALT.  A mismatching  *)
+(* anchor base of an indel / other-shape ALT is NOT required to become a substitution: such        *)
+(* records fall under the ordinary clauses of the alleles they call.                               *)
+Respelled(g, r) ==
+    /\ Counted(g, r) /\ RefMismatch(g, r)
+    /\ \E j \in 1..2 : LET y == Called(r)[j] IN y = 0 \/ (y > 0 /\ Len(r.alts[y]) = 1 /\ Range(r.alts[y]) \subseteq DNA)
+MismatchSites(g, f) == {f[i].pos : i \in {j \in DOMAIN f : Respelled(g, f[j])}}
 MnpSites(g) == UNION {{c[1] : c \in CompKeys(m)} : m \in g.mnps}
 
 ObsN(o, op) ==
@@ -96,7 +104,9 @@ SiteVerdicts(c, o) ==
         st == c.st
         expRef == NormAt(st, s)
         insReads == SumOver({k \in c.ins : k[1] = s}, LAMBDA k : Get(st.muts, k, 0))
-        okRef == {expRef, Min2(FULL, expRef + insReads)}
+        \* every insertion copy anchored here may or may not have taken reference pseudo-reads away
+        \* (a catalogued insertion lives in the indel table, an uncatalogued one in the pileup)
+        okRef == {Min2(FULL, expRef + UNIT * j) : j \in 0..(insReads \div UNIT)}
         ops == ({o.ops[i][1] : i \in DOMAIN o.ops} \cup {k[2] : k \in {x \in DOMAIN st.muts : x[1] = s}})
                  \ ({"_"} \cup {k[2] : k \in c.ins})
     IN  IF ~WellFormed(c.E, s) THEN {}
